@@ -60,6 +60,27 @@ def comment_text(rng):
     return b(rng.choice(COMMENT_POOL))
 
 
+# code points for comments in LAYOUT positions (skipped by `ws`, which must end a comment at LF or
+# CR only): the whole General Punctuation block (all of E2 80 xx and E2 81 80..AF: Unicode blanks,
+# line and paragraph separators, bidi controls, no-break spaces), NEL, NBSP, BOM, and 2-, 3-, 4-byte
+# sequences that share lead or continuation bytes with them
+UC_SPECIAL = sorted(set(list(range(0x2000, 0x2070)) + [
+    0x80, 0x85, 0xA0, 0xA8, 0xAF, 0xB8, 0xBF, 0x7FF, 0x800, 0x1028, 0x102F, 0x1680, 0x180E, 0x1FA8, 0x20A8,
+    0x2128, 0x2FA8, 0x3000, 0x3028, 0xA828, 0xE028, 0xFEFF, 0xFFFD, 0x10028, 0x1F028, 0x28028, 0x10FFFF]))
+# what follows the special character inside the comment: text that would parse as IDL if the comment
+# ended early
+IDL_CONT = [", b: int", ") -> ()", ")", ": int", "-> (", "x", "(", "type T ()", "", ", c", ": (", ",", "\t)"]
+
+
+def layout_comment_text(rng):
+    if rng.random() < 0.6:
+        cp = rng.choice(UC_SPECIAL)
+    else:
+        cp = rng.choice([rng.randrange(0x20, 0x80), rng.randrange(0x80, 0x800), rng.randrange(0x800, 0xD800),
+                         rng.randrange(0xE000, 0x10000), rng.randrange(0x10000, 0x110000)])
+    return rng.choice(["", "c", " next", " a: b"]) + chr(cp) + rng.choice(IDL_CONT)
+
+
 def comments(rng, p):
     if rng.random() >= p:
         return []
@@ -301,7 +322,9 @@ class Layout:
             return self.raw_gap(canon)
         s = self._blank(nonempty)
         if self.mode == "liberal" and liberal_ok and self.rng.random() < 0.08:
-            s += "#" + self.rng.choice([" x", "", " a: b)", "(,"]) + "\n" + self._blank()
+            text = layout_comment_text(self.rng) if self.rng.random() < 0.5 else \
+                self.rng.choice([" x", "", " a: b)", "(,"])
+            s += "#" + text + "\n" + self._blank()
         self.raw_gap(s)
 
     def comment_lines(self, cs, indent_canon=""):
@@ -317,12 +340,16 @@ class Layout:
                 self.out.append(("c", b(lead) + c + (b"\r\n" if self.crlf else b"\n")))
                 self.raw_gap(r.choice(["", "", " ", "\t", "\n", "  \n "]))
 
-    def dropped_comment_lines(self, p=0.15):
+    drop_p = 0.15
+
+    def dropped_comment_lines(self, p=None):
         """Comment lines inside inline types (layout only)."""
+        p = self.drop_p if p is None else p
         if self.mode == "canonical" or self.rng.random() >= p:
             return
         for _ in range(self.rng.choice([1, 1, 2])):
-            self.out.append(("c", b"#" + b(self.rng.choice([" ", "", "\t"])) + comment_text(self.rng) + b"\n"))
+            text = b(layout_comment_text(self.rng)) if self.rng.random() < 0.5 else comment_text(self.rng)
+            self.out.append(("c", b"#" + b(self.rng.choice([" ", "", "\t"])) + text + b"\n"))
             self.raw_gap(self.rng.choice(["", " ", "\n", "\t"]))
 
     # -- types
@@ -450,6 +477,9 @@ class Layout:
             else:
                 self.raw_gap(self.rng.choice(["\n", "\n\n", "\n  ", " \n", "\r\n" if self.crlf else "\n", "\t\n"]))
             self.member(kind, m)
+        if self.mode == "liberal" and self.rng.random() < 0.3:
+            # comment lines after the last member (skipped by the final `ws`)
+            self.raw_gap("\n#" + layout_comment_text(self.rng) + self.rng.choice(["\n", "", "\n# more\n"]))
         if self.mode != "canonical":
             self.raw_gap(self.rng.choice(["", "", "\n", "  ", "\n\n"]))
         return self.out
@@ -755,4 +785,22 @@ def near_miss_lists():
         out.append(("kw_name", "interface a.b\nmethod %s() -> ()" % kw))
         out.append(("kw_name", "interface a.b\nerror %s ()" % kw))
         out.append(("kw_name", "interface %s.%s\n" % (kw, kw)))
+    return [(k, t.encode()) for k, t in out]
+
+
+def uc_comment_cases():
+    """Every special code point inside a comment in every LAYOUT position (inside an inline struct
+    and an inline enum, around ':' and '->', between a member's name and '(', after the last
+    member), followed by text that would parse as IDL if the comment ended at that character
+    (deterministic)."""
+    out = []
+    for cp in UC_SPECIAL:
+        ch = chr(cp)
+        out.append(("inline_struct", "interface a.b\nmethod M() -> (r: (a: int # next%s, b: int\n))" % ch))
+        out.append(("inline_enum", "interface a.b\ntype T (x: (a # c%s, b\n, c))" % ch))
+        out.append(("colon", "interface a.b\nmethod M(a # c%s: int) -> (\n : int) -> ()" % ch))
+        out.append(("arrow", "interface a.b\nmethod M() # c%s -> (x: int)\n -> ()" % ch))
+        out.append(("name_paren", "interface a.b\nerror E # c%s(x: int)\n ()" % ch))
+        out.append(("trailing", "interface a.b\nerror E ()\n# trailing%s garbage" % ch))
+        out.append(("trailing2", "interface a.b\nerror E ()\n# trailing%s\nerror F ()" % ch))
     return [(k, t.encode()) for k, t in out]
